@@ -11,7 +11,7 @@ import warnings
 
 import numpy as np
 
-from vp import probe, refmodels as rm, specmodel as sm
+from vp import gen, probe, refmodels as rm, specmodel as sm
 
 RULE = ('seeded generator: photon cubes 1..6 wavelengths x (2..24)^2, QE as scalar / vector / Spectrum in nm, um, m, angstrom; '
         'square colour patterns of size 1..4 with random R/G/B content, native image sizes any multiple of the pattern, '
@@ -192,7 +192,7 @@ def workload(ctx, lentil):
     for i in range(n):
         nw = int(rng.integers(1, 7))
         shape = (int(rng.integers(1, 25)), int(rng.integers(1, 25)))
-        img = rng.uniform(0, 1e4, size=(nw,) + shape)
+        img = gen.layout(rng, rng.uniform(0, 1e4, size=(nw,) + shape), 0.25)      # cubes in any memory layout
         wave_nm = np.sort(rng.uniform(400, 1000, size=nw))
         if nw > 1 and np.min(np.diff(wave_nm)) < 1e-3:
             wave_nm = np.linspace(400, 1000, nw)
@@ -290,7 +290,7 @@ def workload(ctx, lentil):
         if shape[0] * shape[1] > 40000:
             os_ = max(1, os_ // 2)
             shape = (nr * k * os_, nc * k * os_)
-        img = rng.uniform(0, 1e3, size=(nw,) + shape)
+        img = gen.layout(rng, rng.uniform(0, 1e3, size=(nw,) + shape), 0.25)
         bunit = sm.WAVE_CANON[int(rng.integers(0, 4))] if rng.random() < 0.5 else 'nm'
         wave = (np.linspace(450, 800, nw) if nw > 1 else np.array([550.0])) * sm.wave_factor('nm', bunit)
         qes = [rng.uniform(0, 1, size=nw) if rng.random() < 0.6 else float(rng.uniform(0, 1)) for _ in range(3)]
